@@ -141,8 +141,8 @@ Proof.
   induction f as [|f IH]; intros l s; simpl; [discriminate|].
   destruct l as [|x0 l0].
   - destruct s; [|discriminate]. exists []. split; [constructor|reflexivity].
-  - intros H. apply existsb_exists in H. destruct H as [p [Hp H]].
-    apply picks_perm in Hp.
+  - intros H. rewrite lexists_existsb in H. apply existsb_exists in H. destruct H as [p [Hp H]].
+    apply first_occ_In in Hp. apply picks_perm in Hp.
     destruct (strip_prefix (fst p) s) as [s'|] eqn:E1; [|discriminate].
     apply strip_prefix_sound in E1.
     destruct (snd p) as [|y rest] eqn:Es.
